@@ -301,7 +301,7 @@ def _shape(f, i, ids):
     if k == 'DeclRefExpr' and n.get('rk') in ('param', 'local', 'var'):
         ids.append((n.get('name'), i))
         return 'ID'
-    if k == 'MemberExpr' and n.get('onthis'):
+    if k == 'MemberExpr' and n.get('thisbase'):
         ids.append((n.get('m'), i))
         return 'ID'
     lab = k
